@@ -16,6 +16,9 @@ sys.path.insert(0, ROOT)
 from pyvc.extract import REPO, ensure_repo_on_path  # noqa: E402
 
 ensure_repo_on_path()
+import logging  # noqa: E402
+
+logging.disable(logging.CRITICAL)  # the library's warnings about generated documents are not results
 
 from pyvc import contracts as C  # noqa: E402
 from pyvc import verify as V  # noqa: E402
